@@ -9,6 +9,8 @@ ENUM = "bounded-exhaustive enumeration (model checking of a sequential component
 CHECKS = {
  "C01": ("model_checking", "every execution with <= the stated number of deviations from the honest eager schedule of a two-peer download on the real event loop: adversarial blocks, reorderings, held/failing writes, stop/start; write-equals-truth, claim-implies-data, completion-implies-identical-files and ban oracles in every state",
          "SHA-1 collisions outside the alphabet; handlers atomic (C20); corruption modelled as one flipped byte", MC, "looplab", "3/C01"),
+ "C19": ("model_checking", "every encoding of the private flag x {.torrent, magnet} x 5 stimulus orders (peer advertising ut_pex, PEX message with a dialable address, port message, injected DHT result, clock advances) on the real event loop with PEX on and DHT configured on; frames, dial log, Stats().Addresses, DHT announcer/request set, Magnet(), private peer-id / version / user agent observed; public encodings must not be over-blocked",
+         "the DHT node is not started (configured on through an in-package hook; results injected on the torrent's DHT channel); odd encodings may be read either way but consistently", MC, "looplab", "3/C19"),
  "C02": ("exploration", "every file-length vector / padding placement / piece length / block size / read range within the stated unit-scale bounds, plus 16 KiB-scaled images and created directory trees, executed on the real geometry code and compared with a flat byte-array model; exhaustive within the bounds",
          "value-independence of geometry (one byte pattern); sizes beyond the bounds represented by their unit-scale coincidence class", ENUM, "enum", "3/C02"),
  "C03": ("model_checking", "seeding / partially seeding torrent on the real event loop: every history of <= depth leecher operations over 14 request shapes, interested, cancel, unchoke tick, for read-cache block sizes {16K,24K,128K}, cache capacities, fast / non-fast leecher; every piece frame decoded by an independent codec and compared with the ground truth, allowed-fast-only service while choked",
@@ -25,6 +27,8 @@ CHECKS = {
          "two peers; SHA-1 collisions outside the alphabet", MC, "looplab", "3/C13"),
  "C14": ("model_checking", "every sequence of <= 3 (thorough: dedup BFS to depth 5) registry operations (adds incl. failing ones, removes, start/stop, AddTracker, CompactDatabase + load, close + reopen) on real sessions with a 3-port range, conservation laws after every operation; resume Spec field lattice through bbolt and JSON",
          "payloads fixed (two torrents, one magnet); concurrent callers are the threadlab part", "explicit-state exploration of operation histories on the real Session with state-key dedup", "enum", "3/C14"),
+ "C15": ("model_checking", "byte lattice of announce fields through the real HTTP and UDP tracker clients against independent BEP 3 / BEP 15 decoders; every event/answer sequence up to the bound on the real PeriodicalAnnouncer and StopAnnouncer under virtual time (started first, completed once, interval discipline); a whole torrent run start->download->complete->stop->start on the real event loop with scripted HTTP and UDP trackers, all single deviations, comparing announce identity with the peer handshake and the stopped-only-after-accept rule",
+         "tracker scripts of at most two phases; one torrent; interval discipline judged on the virtual clock", "exhaustive enumeration of operation sequences on the real actors under virtual time + stateless model checking of the event loop", "actorlab", "3/C15"),
  "C16": ("model_checking", "tier index machine explored by BFS to a fixpoint (all answer vectors, up to 2-4 concurrent calls interleaved at every point); every announce answer sequence up to the bound on the real PeriodicalAnnouncer under virtual time; the real UDP transport with 2-3 concurrent requests under every cancel/reply/expiry order; HTTP and UDP reply byte lattices",
          "announcer back-off jitter bounded not pinned; at most 3 requests per UDP destination; no DNS", "explicit-state BFS to fixpoint + exhaustive operation-sequence enumeration on the real actors under virtual time (synctest)", "actorlab", "3/C16"),
  "C18": ("model_checking", "interval tree vs linear scan for every list of <=4(5) intervals over two endpoint lattices and every query point; Blocklist for every list of <=3 lines of a 49-line universe and every Reload sequence; AddrList for every push/pop/reset sequence up to depth 6(7) against a reference bounded priority set; resolver on blocked literals",
